@@ -174,6 +174,7 @@ type Info struct {
 	Key     []byte
 	Payload []byte
 	Digest  string // canonical digest of every field
+	Content string // digest of the content fields (everything but additional data and identity)
 	Seq     int    // creation order in the registry
 }
 
@@ -231,6 +232,34 @@ func Digest(e iface.IPFSLogEntry) string {
 	return hex.EncodeToString(h.Sum(nil))
 }
 
+// ContentDigest covers the fields that are stored in the block: payload, id,
+// next, refs, v, key, sig, clock and hash (not additional data, which only
+// entries created locally under a link key carry, and not the identity object).
+func ContentDigest(e iface.IPFSLogEntry) string {
+	h := sha256.New()
+	w := func(tag string, b []byte) {
+		fmt.Fprintf(h, "%s:%d:", tag, len(b))
+		h.Write(b)
+	}
+	w("payload", e.GetPayload())
+	w("id", []byte(e.GetLogID()))
+	for _, n := range e.GetNext() {
+		w("next", n.Bytes())
+	}
+	for _, n := range e.GetRefs() {
+		w("ref", n.Bytes())
+	}
+	w("v", []byte(fmt.Sprint(e.GetV())))
+	w("key", e.GetKey())
+	w("sig", e.GetSig())
+	if c := e.GetClock(); c != nil {
+		w("clockid", c.GetID())
+		w("time", []byte(fmt.Sprint(c.GetTime())))
+	}
+	w("hash", e.GetHash().Bytes())
+	return hex.EncodeToString(h.Sum(nil))
+}
+
 func cidStrings(cs []cid.Cid) []string {
 	out := make([]string, len(cs))
 	for i, c := range cs {
@@ -258,6 +287,7 @@ func (r *Registry) Record(e iface.IPFSLogEntry) *Info {
 		Key:     append([]byte(nil), e.GetKey()...),
 		Payload: append([]byte(nil), e.GetPayload()...),
 		Digest:  Digest(e),
+		Content: ContentDigest(e),
 		Seq:     len(r.order),
 	}
 	r.infos[h] = in
